@@ -49,3 +49,6 @@ Proof. exact lookup_first. Qed.
 
 Theorem C14_nonvacuous : wf_request ex_req /\ parse_request (generate ex_req) = Ok ex_req.
 Proof. exact (conj ex_req_wf ex_req_roundtrips). Qed.
+(* C14-F1 (listed finding): "GET  HTTP/1.1" - no target between the two blanks - is not an error; the repository pins this in its own tests *)
+Theorem C14_F1_witness : parse_request_line [71;69;84;32;32;72;84;84;80;47;49;46;49;13;10] = Some ([71;69;84], [], [72;84;84;80;47;49;46;49]).
+Proof. exact empty_target_witness. Qed.
